@@ -2445,89 +2445,6 @@ def _np_anyall(which):
     return h
 
 
-def _regex_shape(pat):
-    try:
-        import re._parser as sp
-    except ImportError:                      # pragma: no cover
-        import sre_parse as sp
-    return repr(sp.parse(pat))
-
-
-_NUM_PREFIX = None
-_FORMULA = None
-
-
-def _re_search(I, fr, args, kwargs, n):
-    """re.search of the 'leading number' pattern on an abstract string"""
-    global _NUM_PREFIX
-    pat, s_ = args[0], args[1]
-    if _NUM_PREFIX is None:
-        _NUM_PREFIX = _regex_shape(r'^\d+\.?\d*')
-    if not isinstance(pat, str) or _regex_shape(pat) != _NUM_PREFIX:
-        raise Unsupported('regular expression %r is outside the modelled fragment' % (pat,), n)
-    sb = I.seg(s_)
-    if not sb.segs:
-        return None
-    first = sb.segs[0]
-    if first.kind == 'lit':
-        m_ = re.match(pat, first.text)
-        if not m_:
-            return None
-        if m_.end() == len(first.text) and len(sb.segs) > 1 and sb.segs[1].kind == 'field' \
-                and sb.segs[1].cls == 'num':
-            raise Unsupported('number continues into a symbolic numeric field', n)
-        mo = Obj('match', closed=True)
-        txt = m_.group()
-        mo.opaque_methods['group'] = lambda I_, o, a, k, t=txt: t
-        return mo
-    if first.cls == 'num':
-        mo = Obj('match', closed=True)
-        mo.opaque_methods['group'] = lambda I_, o, a, k, f_=first: SegStr([f_])
-        return mo
-    # user text: assumed not to start with a digit (species names: digits only after the first character)
-    return None
-
-
-def _re_findall(I, fr, args, kwargs, n):
-    """re.findall of the formula pattern ([A-Z][a-z]*)(\\d*) on an abstract formula"""
-    global _FORMULA
-    pat, s_ = args[0], args[1]
-    if _FORMULA is None:
-        _FORMULA = _regex_shape(r'([A-Z][a-z]*)(\d*)')
-    if not isinstance(pat, str) or _regex_shape(pat) != _FORMULA:
-        raise Unsupported('regular expression %r is outside the modelled fragment' % (pat,), n)
-    sb = I.seg(s_)
-    out = []
-    i = 0
-    segs = sb.segs
-    while i < len(segs):
-        sg = segs[i]
-        if sg.kind == 'field' and sg.cls == 'alpha':
-            sym = sg.value
-            cnt = ''
-            if i + 1 < len(segs):
-                nx = segs[i + 1]
-                if nx.kind == 'lit' and re.match(r'\d+', nx.text):
-                    d_ = re.match(r'\d+', nx.text).group()
-                    cnt = d_
-                    if len(d_) < len(nx.text):
-                        raise Unsupported('formula literal %r is not purely a count' % nx.text, n)
-                    i += 1
-                elif nx.kind == 'field' and nx.cls == 'num':
-                    cnt = SegStr([nx])
-                    i += 1
-            out.append(ListV([sym, cnt]))
-            i += 1
-            continue
-        if sg.kind == 'lit':
-            for sy, ct in re.findall(pat, sg.text):
-                out.append(ListV([sy, ct]))
-            i += 1
-            continue
-        raise Unsupported('formula contains %r' % (sg,), n)
-    return ListV(out)
-
-
 def _re_generic(kind):
     """re.<kind>(pattern literal, abstract string): see absre"""
     def h(I, fr, args, kwargs, n):
